@@ -62,8 +62,17 @@ def run_case(c):
             elif k == "setchildren":
                 a = objs[op[1]]
                 before = [links_of(o) for o in objs]
+                named_nodes = [objs[i] for i in op[2]]
                 try:
-                    a.children = [objs[i] for i in op[2]]
+                    a.children = named_nodes
+                    got = list(a.children)
+                    if len(got) != len(named_nodes) or any(x is not y for x, y in zip(got, named_nodes)):
+                        struct_ok = False
+                        why.append("children assigned to %d are not its children afterwards" % op[1])
+                    for x in named_nodes:
+                        if x.parent is not a:
+                            struct_ok = False
+                            why.append("a child given to %d has another parent" % op[1])
                 except (LoopError, TreeError):
                     pass
                 # the target of a link never moves because the link got children, nor vice versa
